@@ -184,7 +184,7 @@ def build(cfg, values=None):
 def configs(tier, seed):
     out = []
     quick = tier == 'quick'
-    pairs = [(2, 2), (3, 2), (5, 1), (1, 4)] if quick else [(2, 2), (3, 2), (2, 3), (4, 3), (5, 5)]
+    pairs = [(2, 2), (3, 2), (5, 1), (1, 4)] if quick else [(2, 2), (3, 2), (2, 3), (4, 3), (5, 5), (8, 6), (6, 9), (12, 2)]
     for model in MODELS:
         for flow in ('x', 'y'):
             for (m, n) in pairs:
